@@ -228,12 +228,21 @@ def run_shipped(case, R):
     mesh = case['mesh']
     if isinstance(mesh, str): mesh = os.path.join(base, mesh)
     elif mesh: mesh = [os.path.join(base, p) for p in mesh]
+    import fixed_format_file as fff
+    # the shipped files were written by Fortran programs ('- 5.0', '1.10000D+6'): read as the user guide prescribes
     with R.lib('read-shipped'):
-        x = t2data.t2data(path, meshfilename=(mesh or ''))
+        x = t2data.t2data(path, meshfilename=(mesh or ''), read_function=fff.fortran_read_function)
     e = data.extract(x)
     au = bool(x.simulator)
     # independent read of the shipped file agrees with the library's
     r = data.with_defaults(t2_ref.read(path, autough2=au))
+    if r.get('rocks'):
+        # a rock type defined twice: the later definition replaces the earlier one in place (add_rocktype's documented behaviour)
+        pos, out = {}, []
+        for rk in r['rocks']:
+            if rk['name'] in pos: out[pos[rk['name']]] = rk; R.label('shipped:duplicate-rock-definition')
+            else: pos[rk['name']] = len(out); out.append(rk)
+        r['rocks'] = out
     if isinstance(mesh, str):
         mr = t2_ref.read_mesh_file(mesh); r['blocks'], r['connections'] = mr['blocks'], mr['connections']
     pd = os.path.splitext(path)[0] + '.pdat'
